@@ -438,8 +438,14 @@ func (e *Engine) evalParam(x *ssa.Parameter, ctx *Ctx) *Term {
 		if ctx.Call == nil {
 			return own()
 		}
-		if ctx.Call.Common().StaticCallee() != fn {
-			return own() // entered as a closure / function value
+		if sc := ctx.Call.Common().StaticCallee(); sc != fn {
+			// entered through a function value: a frame for fn exists only when the
+			// value was resolved to fn (a known function literal), so the call's
+			// arguments are fn's parameters
+			if sc == nil && !ctx.Call.Common().IsInvoke() && idx >= 0 && idx < len(ctx.Call.Common().Args) {
+				return e.Eval(ctx.Call.Common().Args[idx], ctx.Parent)
+			}
+			return own()
 		}
 		args := ctx.Call.Common().Args
 		if ctx.Call.Common().IsInvoke() {
